@@ -15,6 +15,7 @@
 package ggql
 
 import (
+	"math"
 	"strconv"
 )
 
@@ -31,6 +32,24 @@ func newIntScalar() Type {
 			},
 		},
 	}
+}
+
+// intOut converts i to an int32 or, if it is outside the 32 bit range of the
+// GraphQL Int type, returns a coerce error.
+func intOut(i int64, v interface{}) (interface{}, error) {
+	if i < math.MinInt32 || math.MaxInt32 < i {
+		return nil, newCoerceErr(v, "Int")
+	}
+	return int32(i), nil
+}
+
+// uintOut converts u to an int32 or, if it is outside the 32 bit range of the
+// GraphQL Int type, returns a coerce error.
+func uintOut(u uint64, v interface{}) (interface{}, error) {
+	if math.MaxInt32 < u {
+		return nil, newCoerceErr(v, "Int")
+	}
+	return int32(u), nil
 }
 
 // CoerceIn coerces an input value into the expected input type if possible
@@ -84,7 +103,7 @@ func (t *intScalar) CoerceOut(v interface{}) (interface{}, error) {
 	case float64:
 		v = int32(tv)
 	case int:
-		v = int32(tv)
+		v, err = intOut(int64(tv), tv)
 	case int8:
 		v = int32(tv)
 	case int16:
@@ -92,17 +111,17 @@ func (t *intScalar) CoerceOut(v interface{}) (interface{}, error) {
 	case int32:
 		// ok as is
 	case int64:
-		v = int32(tv)
+		v, err = intOut(tv, tv)
 	case uint:
-		v = int32(tv)
+		v, err = uintOut(uint64(tv), tv)
 	case uint8:
 		v = int32(tv)
 	case uint16:
 		v = int32(tv)
 	case uint32:
-		v = int32(tv)
+		v, err = uintOut(uint64(tv), tv)
 	case uint64:
-		v = int32(tv)
+		v, err = uintOut(tv, tv)
 	case string:
 		var i int64
 		if i, err = strconv.ParseInt(tv, 10, 64); err == nil {
